@@ -66,7 +66,11 @@ def run(index: RepoIndex, rep) -> None:
              floor=4)
     rep.rule('C03.R4', 'memoised helpers are pure, hashable-keyed, and their results only read',
              floor=5)
-    rep.rule('C03.R5', 'equality and hashing are structural and agree', floor=8)
+    rep.rule('C03.R5', 'equality and hashing are structural and agree; hashes are not '
+             'memoised', floor=8)
+    rep.rule('C03.R6', 'registered components are not wrapped by caching decorators; state '
+             'classes use the default copy protocol (or a __reduce__ that rebuilds every '
+             'constructor argument)', floor=50)
     eff = Effects(index)
 
     # ---------------------------------------------------------------- R1
@@ -208,8 +212,21 @@ def run(index: RepoIndex, rep) -> None:
                         isinstance(v.args[0], ast.Name) and v.args[0].id in mod.functions:
                     cached.append((name, mod.functions[v.args[0].id], mod.relpath))
     component_cached = [c for c in cached if not c[2].endswith('schemas.py')]
-    if len(component_cached) < 3:
-        raise AnalysisError(f'found {len(component_cached)} memoised helpers, floor is 3')
+    # the three memoised helpers of the pinned tree must still be lru_cache-based (keyed by
+    # their full input); any other memoisation scheme is not analysable as history-free
+    for rel, name in (('gym_gridverse/utils/raytracing.py', 'cached_compute_rays'),
+                      ('gym_gridverse/utils/raytracing.py', 'cached_compute_rays_fancy'),
+                      ('gym_gridverse/envs/reward_functions.py', 'dijkstra')):
+        mod_ = index.module(rel)
+        present = name in mod_.functions or name in mod_.assigns
+        if not present:
+            raise AnalysisError(f'anchor vanished: memoised helper {rel}:{name}')
+        rep.check(any(c[0] == name and c[2] == rel for c in component_cached), 'C03.R4', rel,
+                  name, (mod_.functions[name].node.lineno if name in mod_.functions
+                         else getattr(mod_.assigns[name][0], 'lineno', 1)), name,
+                  f'{name} is no longer memoised by functools.lru_cache on its full argument '
+                  f'tuple: a hand-written cache may key on less than the input (later answers '
+                  f'would depend on earlier calls)', f'{name} lru_cache-based')
     for name, fn, rel in component_cached:
         s = eff.summary(fn)
         rep.check(not s.mut_params and not (s.global_writes - {'_gv_debug'}), 'C03.R4', rel,
@@ -272,14 +289,110 @@ def run(index: RepoIndex, rep) -> None:
                           f'{bad_uses[:2]} -- later calls would see the change',
                           f'{g.short}: result of {name} only read')
 
+    # ---------------------------------------------------------------- R6
+    component_decorators(index, rep, 'C03.R6')
+    copy_protocol(index, rep, 'C03.R6')
+
     # ---------------------------------------------------------------- R5
+    eq_hash(index, rep, 'C03.R5', eff)
+
+
+def component_decorators(index: RepoIndex, rep, rule: str) -> None:
+    """registered components are plain functions: no caching / wrapping decorator"""
+    for role, reg in sorted(index.registries.items()):
+        for name, fn in sorted(reg.items()):
+            decs = [src(d) for d in fn.node.decorator_list]
+            extra = [d for d in decs if not d.split('(')[0].endswith('_registry.register')]
+            rep.check(not extra, rule, fn.relpath, name, fn.node.lineno,
+                      '; '.join('@' + d for d in decs),
+                      f'{role} function {name} is wrapped by {extra}: a memoising / wrapping '
+                      f'decorator makes its answer depend on earlier calls (states are mutable '
+                      f'and compare by value, Box contents excluded)',
+                      f'{role} {name}: no wrapper')
+    # no module-level rebinding of a registered component to a wrapped version
+    for mod in index.modules.values():
+        if not mod.relpath.startswith(PKG):
+            continue
+        names = {n for r in index.registries.values() for n, f in r.items() if f.module is mod}
+        for n in names & set(mod.assigns):
+            rep.violation(rule, mod.relpath, n, getattr(mod.assigns[n][0], 'lineno', 1),
+                          f'{n} = {src(mod.assigns[n][0])[:60]}',
+                          f'registered component {n} is rebound at module level (wrapped?)')
+
+
+PICKLE_HOOKS = ('__reduce__', '__reduce_ex__', '__getstate__', '__setstate__', '__copy__',
+                '__deepcopy__', '__getnewargs__', '__getnewargs_ex__')
+
+
+def copy_protocol(index: RepoIndex, rep, rule: str) -> None:
+    """classes that make up a state either use the default pickling protocol, or their
+    __reduce__ rebuilds every constructor argument of every concrete subclass"""
+    n = 0
+    for rel in ('gym_gridverse/grid_object.py', GRID, 'gym_gridverse/agent.py',
+                'gym_gridverse/state.py', 'gym_gridverse/observation.py', GEOMF):
+        mod = index.module(rel)
+        for c in mod.classes.values():
+            n += 1
+            hooks = [h for h in PICKLE_HOOKS if index.method(c, h) is not None]
+            if not hooks:
+                rep.holds(rule, f'{rel}:{c.name}', 'default copy/pickle protocol')
+                continue
+            ok, why = True, ''
+            for h in hooks:
+                m = index.method(c, h)
+                if h != '__reduce__':
+                    ok, why = False, f'{c.name} customises {h} (defined in {m.cls.name})'
+                    break
+                init = index.method(c, '__init__')
+                params = [a.arg for a in init.node.args.args[1:]] if init is not None else []
+                w = walk_function(m.node)
+                rets = [e.value for e in w.events if e.kind == 'return' and e.value is not None]
+                good = False
+                if len(rets) == 1 and isinstance(rets[0], ast.Tuple) and len(rets[0].elts) >= 2 \
+                        and isinstance(rets[0].elts[1], ast.Tuple):
+                    args = rets[0].elts[1].elts
+                    stored = {}
+                    if init is not None:
+                        for x in ast.walk(init.node):
+                            if isinstance(x, ast.Assign) and len(x.targets) == 1 and \
+                                    isinstance(x.targets[0], ast.Attribute) and \
+                                    src(x.targets[0].value) == 'self' and \
+                                    isinstance(x.value, ast.Name):
+                                stored[x.value.id] = x.targets[0].attr
+                    good = len(args) == len(params) and all(
+                        src(a) == f'self.{stored.get(p_, p_)}' for a, p_ in zip(args, params))
+                if not good:
+                    ok = False
+                    why = (f'{c.name} is rebuilt by {m.cls.name}.__reduce__, which does not pass '
+                           f'its constructor arguments {params}: a copied state loses them '
+                           f'(e.g. the colour of an exit)')
+                    break
+            rep.check(ok, rule, rel, c.name, c.node.lineno, ', '.join(hooks), why,
+                      f'{c.name}: copy protocol rebuilds all fields')
+    if n < 15:
+        raise AnalysisError(f'copy protocol rule saw {n} classes, floor is 15')
+
+
+def eq_hash(index: RepoIndex, rep, rule: str, eff) -> None:
+    for rel, cname in (('gym_gridverse/grid_object.py', 'GridObject'), (GRID, 'Grid'),
+                       ('gym_gridverse/agent.py', 'Agent')):
+        c = index.cls(rel, cname)
+        hs = c.methods.get('__hash__')
+        if hs is not None:
+            sm = eff.summary(hs)
+            rep.check(not sm.mut_params, rule, rel, f'{cname}.__hash__', hs.node.lineno,
+                      '; '.join(t for _, t in sm.mut_sites.get('self', [])[:2]) or '__hash__',
+                      f'{cname}.__hash__ stores into the object (a memoised hash goes stale when '
+                      f'a cell object is mutated in place, e.g. a door opened by ACTUATE, and '
+                      f'travels with copies): equal objects would hash differently',
+                      f'{cname}.__hash__ not memoised')
     for rel, cname, ignore in (('gym_gridverse/grid_object.py', 'GridObject', set()),
                                (GRID, 'Grid', {'shape', 'area'}),
                                ('gym_gridverse/agent.py', 'Agent', set())):
         c = index.cls(rel, cname)
         eq, hs = c.methods.get('__eq__'), c.methods.get('__hash__')
         if eq is None or hs is None:
-            rep.violation('C03.R5', rel, cname, c.node.lineno, cname,
+            rep.violation(rule, rel, cname, c.node.lineno, cname,
                           f'{cname} lacks __eq__ or __hash__: equal copies would not hash alike')
             continue
 
@@ -296,11 +409,11 @@ def run(index: RepoIndex, rep) -> None:
             return {('objects' if a in ('objects', '__getitem__') else a) for a in out} - ignore
 
         fe, fh = fields(eq), fields(hs)
-        rep.check(fh <= fe and bool(fh), 'C03.R5', rel, f'{cname}.__hash__', hs.node.lineno,
+        rep.check(fh <= fe and bool(fh), rule, rel, f'{cname}.__hash__', hs.node.lineno,
                   f'hash reads {sorted(fh)}, eq compares {sorted(fe)}',
                   f'{cname}.__hash__ reads {sorted(fh - fe)} which __eq__ does not compare: '
                   f'equal objects may hash differently', f'{cname} hash subset of eq')
-        rep.check(fe <= fh | ignore, 'C03.R5', rel, f'{cname}.__eq__', eq.node.lineno,
+        rep.check(fe <= fh | ignore, rule, rel, f'{cname}.__eq__', eq.node.lineno,
                   f'hash reads {sorted(fh)}, eq compares {sorted(fe)}',
                   f'{cname}.__eq__ compares {sorted(fe - fh)} which __hash__ ignores',
                   f'{cname} eq fields hashed')
@@ -311,7 +424,7 @@ def run(index: RepoIndex, rep) -> None:
                                                             for o in n.ops)
                          and not any(src(x) in ('None', 'NotImplemented')
                                      for x in [n.left] + n.comparators))]
-            rep.check(not ident, 'C03.R5', rel, fn.short, fn.node.lineno,
+            rep.check(not ident, rule, rel, fn.short, fn.node.lineno,
                       '; '.join(ident) or fn.short,
                       f'{fn.short} uses identity ({ident}): a copied state would not equal / '
                       f'hash like its original', f'{fn.short} structural')
@@ -324,6 +437,6 @@ def run(index: RepoIndex, rep) -> None:
         ok = bool(dc) and 'eq=False' not in dc[0] and \
             not ('__eq__' in c.methods or '__hash__' in c.methods)
         hashable = bool(dc) and ('frozen=True' in dc[0] or 'unsafe_hash=True' in dc[0])
-        rep.check(ok and hashable, 'C03.R5', rel, cname, c.node.lineno, '; '.join(decs),
+        rep.check(ok and hashable, rule, rel, cname, c.node.lineno, '; '.join(decs),
                   f'{cname} is not a dataclass with generated structural equality and hash',
                   f'{cname} dataclass eq/hash')
